@@ -468,7 +468,8 @@ _ADDENDA = {
     "BITSET": " Bit sets may address with x / 2^k and x % 2^k as well; every non-constant shift amount outside the bit matrix is "
               "provably below the word width. When next() does not match a schema's shape the schema verdict stays UNDECIDED, but "
               "a bulk edit (drain, retain, truncate, clear, sort, ..) of a container field of the traversal inside next() is "
-              "still a violation (worklist-edited).",
+              "still a violation (worklist-edited). Only next() (and private helpers inlined into it) pops the worklist of a "
+              "traversal; a method that drains it itself is reported (worklist-popped-outside-next).",
 }
 _PROP_ADDENDA = {
     "C02": " has_walk reaches its pairwise test only for sequences of at least two vertices (walk-min-length).",
@@ -479,11 +480,16 @@ _PROP_ADDENDA = {
     "C11": " complement / converse / union / filter_vertices never write in bulk (extend, append) into a field of a local "
            "representation value, bypassing add_arc (OPS-WRITES).",
     "C12": " IDSRC covers the blanket impls of graaf::op and every predicate of the property; is_spanning_subdigraph does not "
-           "compare the two vertex sequences through zip() (spanning-vertex-sets-equal).",
+           "compare the two vertex sequences through zip() (spanning-vertex-sets-equal) and scans the arcs of self against "
+           "d, not the converse (is_spanning_subdigraph-direction).",
     "C14": " A per-worker scratch container is not carried from one row to the next (shrinking edits count; a remove that is "
            "followed on every path by the insert of the same key is balanced).",
     "C15": " next_f64 may also be (integer expression of the draw) as f64 * C, evaluated at its largest value in IEEE double "
-           "arithmetic (u64::MAX as f64 is 2^64).",
+           "arithmetic (u64::MAX as f64 is 2^64). A seeded generator does not hand out work through an atomic read-modify-write "
+           "while its workers own PRNG streams (NONDET dynamic-work-in-seeded-generator).",
+    "C18": " is_connected returns true only on paths that looked at the matrix (connected-without-scan).",
+    "C20": " A hand-written eq / cmp that walks the operands' fields through zip() without comparing their lengths is not "
+           "field-wise (fieldwise).",
     "C17": " A per-worker scratch container is not carried from one row to the next; a result row is written only after row u of "
            "each operand was read or is known not to exist (rows-merged); row chunks zipped with per-worker state have one "
            "item per chunk on the other side (zip-covers-chunks).",
@@ -494,3 +500,11 @@ for _pid, _d in PROPERTY_RULES.items():
             _d["explanation"] += _txt
     if _pid in _PROP_ADDENDA:
         _d["explanation"] += _PROP_ADDENDA[_pid]
+
+# C13 leans on the representation invariants (every stored endpoint is a vertex) that the mutators and the conversions establish:
+# the rules that check those construction sites are part of its verdict
+PROPERTY_RULES["C13"]["rules"] = PROPERTY_RULES["C13"]["rules"] + ["GUARD", "FROM-VALID"]
+PROPERTY_RULES["C13"]["explanation"] += (" The row / word accesses indexed by a stored head are discharged by the representation "
+                                         "invariant `every stored endpoint is a vertex`; the rules that establish it at the mutators "
+                                         "(GUARD) and at the conversions from arbitrary input (FROM-VALID) are therefore part of this "
+                                         "check.")
